@@ -636,8 +636,8 @@ def run(ctx: Ctx):
     import torch  # noqa: F401  (import cost ~5 s)
     torch.set_num_threads(min(4, torch.get_num_threads()))
     r = ctx.rng
-    plan = ([("main", ctx.budget(28, 700))] + [("constant", ctx.budget(4, 60))] + [("odd", ctx.budget(3, 30))]
-            + [("odd-constant", ctx.budget(2, 20))])
+    plan = ([("main", ctx.budget(28, 400))] + [("constant", ctx.budget(4, 40))] + [("odd", ctx.budget(3, 20))]
+            + [("odd-constant", ctx.budget(2, 12))])
     kinds = ["complex", "pure_phase", "potential"]
     max_ratio = {"no_shift": {lt: 0.0 for lt in LOSSES}, "constant": {lt: 0.0 for lt in LOSSES}}
     odd_report = []
